@@ -578,6 +578,32 @@ def _first_flag(flags):
     return "none"
 
 
+_MATCHES = None
+
+
+def _listed(sig: dict, specific: bool) -> bool:
+    """is `sig` covered by a finding line (one that names the clause when `specific`, a cause-only line otherwise)?"""
+    global _MATCHES
+    if _MATCHES is None:
+        _MATCHES = [it["match"] for it in core.KnownFindings("C07").items]
+    return any(("clause" in m) == specific and all(sig.get(k) == v for k, v in m.items() if k != "trigger") for m in _MATCHES)
+
+
+def pick_cause(flags, clause, field=None):
+    """The anomaly a failure of kind (clause, field) is put down to, among the anomalies that ARE present on the culprit change: the
+    highest-priority one already known to produce this kind of failure; failing that, the highest-priority one (the signature is then
+    unlisted and the failure is reported).  Benign flags (normal operations) never explain a failure."""
+    cand = [f for f in PRIORITY if f in flags and f not in BENIGN]
+    for specific in (True, False):
+        for f in cand:
+            sig = {"clause": clause, "cause": f}
+            if field is not None:
+                sig["field"] = field
+            if _listed(sig, specific):
+                return f
+    return cand[0] if cand else "none"
+
+
 def cause_at_line(changes, line):
     prior = [c for c in changes if c["start"] <= line]
     c = max(prior, key=lambda c: c["start"]) if prior else (changes[0] if changes else None)
@@ -603,7 +629,7 @@ def cause_of_invalid(nb, changes):
         try:
             ast.parse(text_with(nb, changes, k))
         except (SyntaxError, ValueError):
-            return _first_flag(changes[k - 1]["flags"])
+            return pick_cause(changes[k - 1]["flags"], "valid-python")
     return "none"
 
 
@@ -619,11 +645,11 @@ def _listed_causes():
     return _LISTED
 
 
-def _combine(window):
+def _combine(window, clause, field=None):
     """One cause for the changes applied since the last state on which the clause could be evaluated: the anomaly of the single
     change that has one; `several-known-causes` when several changes with *different* anomalies are involved and every one of them is
     individually a listed finding; `none` otherwise."""
-    tops = [t for t in (_first_flag([f for f in c["flags"] if f not in BENIGN]) for c in window) if t != "none"]
+    tops = [t for t in (pick_cause(c["flags"], clause, field) for c in window) if t != "none"]
     d = set(tops)
     if not d:
         return "none"
@@ -632,10 +658,10 @@ def _combine(window):
     return "several-known-causes" if d <= _listed_causes() else "none"
 
 
-def attribute_incremental(nb, changes, evaluate):
+def attribute_incremental(nb, changes, evaluate, kind_of):
     """Apply the real CST changes one after the other; `evaluate(text)` returns the set of failure keys present in that state, or None
     when the clause cannot be evaluated there (the intermediate text is not Python).  -> {key: cause} for the state in which each key
-    first shows up, the cause being taken from the changes applied since the previous evaluable state."""
+    first shows up, the cause being taken from the changes applied since the previous evaluable state; `kind_of(key)` = (clause, field)."""
     out, window = {}, []
     for k in range(1, len(changes) + 1):
         if "op" not in changes[k - 1]:
@@ -644,11 +670,9 @@ def attribute_incremental(nb, changes, evaluate):
         keys = evaluate(text_with(nb, changes, k))
         if keys is None:
             continue
-        cause = None
         for key in keys:
             if key not in out:
-                cause = cause or _combine(window)
-                out[key] = cause
+                out[key] = _combine(window, *kind_of(key))
         window = []
     return out
 
@@ -690,7 +714,7 @@ def cause_of_line_diff(src, nb, changes):
         got = lines_outside(text)
         return None if got is None else (set() if [l for _, l in got] == want else {"lines"})
 
-    return attribute_incremental(nb, changes, ev).get("lines", "none")
+    return attribute_incremental(nb, changes, ev, lambda key: ("lines", None)).get("lines", "none")
 
 
 def flags_for_def(changes, name, lineno, body: bool):
@@ -703,8 +727,8 @@ def flags_for_def(changes, name, lineno, body: bool):
     return fl
 
 
-def cause_for_def(changes, name, lineno, body: bool):
-    return _first_flag(flags_for_def(changes, name, lineno, body))
+def cause_for_def(changes, name, lineno, body: bool, field):
+    return pick_cause(flags_for_def(changes, name, lineno, body), "ast-erase", field)
 
 
 def oracle(src: str, r: dict):
@@ -744,12 +768,12 @@ def oracle(src: str, r: dict):
                 # found below by applying the changes one at a time
                 cause = "none"
             else:
-                cause = "header-resynth" if resynth else (cause_for_def(changes, path[-1], lineno, field == "statements") if path else "none")
+                cause = "header-resynth" if resynth else (cause_for_def(changes, path[-1], lineno, field == "statements", field) if path else "none")
             if cause == "none" and changes:
                 # the difference is not explained by the changes made to that very definition (an over-long docstring node or a
                 # misplaced header slice of *another* definition reaches into it): find the change that introduces it
                 if exact is None:
-                    exact = attribute_incremental(r["nodes_before"], changes, lambda text: ast_keys(src, text))
+                    exact = attribute_incremental(r["nodes_before"], changes, lambda text: ast_keys(src, text), lambda key: ("ast-erase", key[0]))
                 cause = exact.get((field, tuple(path) if path else None), "none")
             sig = {"clause": "ast-erase", "field": field, "cause": cause}
             if resynth:
@@ -763,7 +787,7 @@ def oracle(src: str, r: dict):
     if cb != ca:
         cc = comment_cause(cb, ca, changes)
         if cc == "none" and changes:
-            cc = attribute_incremental(r["nodes_before"], changes, lambda text: comment_keys(cb, text)).get("comments", "none")
+            cc = attribute_incremental(r["nodes_before"], changes, lambda text: comment_keys(cb, text), lambda key: ("comments", None)).get("comments", "none")
         fails.append(({"clause": "comments", "cause": cc}, "comment list differs: %r -> %r" % (cb[:8], ca[:8])))
     hb, db = header_and_doc_lines(src, tb)
     ha, da = header_and_doc_lines(after, ta)
